@@ -26,15 +26,19 @@
 (* 104 220 distinct states; thorough (every start, 3 formats, MaxViol = 2)   *)
 (* 1 607 944 distinct states (MaxC = 4), 2 276 800 (MaxC = 5).               *)
 (*                                                                          *)
-(* Abstract object state  s = [d, c, h]:                                    *)
+(* Abstract object state  s = [d, c, h, a]:                                    *)
 (*   d  a discrete parameter  (what class labels / cluster ids depend on)   *)
 (*   c  a continuous parameter, counted in "last-place units": two          *)
 (*      neighbouring values have different bit patterns but the same or     *)
 (*      adjacent fixed-point projection (cfx = c \div 2)                    *)
 (*   h  a hidden field that predictions do not depend on (a split score, a  *)
 (*      cached statistic)                                                   *)
-(* Observation of s on the (single, abstract) query: discrete output d,     *)
-(* continuous output c.  Digest of s: injective in (d, c, h).               *)
+(*   a  auxiliary state that only an AUXILIARY public method depends on      *)
+(*      (the bootstrap masks of a forest fitted with keep_samples, read by   *)
+(*      predict_oob): 0 = absent, the method answers "err"; 1 = present      *)
+(* Observation of s on the (single, abstract) query: method 1 ("predict")    *)
+(* gives discrete output d and continuous output c; method 2 ("aux") gives   *)
+(* a when a > 0 and refuses otherwise.  Digest: injective in (d, c, h, a).   *)
 (***************************************************************************)
 EXTENDS RoundTrip, TLC
 
@@ -45,14 +49,20 @@ CONSTANTS MaxC,      \* continuous parameter ranges over 0..MaxC
                         \* symmetric under flipping d and h)
           MaxViol       \* a history is not continued after this many clauses have fired
 
-AllFaults == {"serFail", "deFail", "deCorrupt", "deDropsHidden", "jsonSloppy", "jsonDiscrete",
+AllFaults == {"serFail", "deFail", "deCorrupt", "deDropsHidden", "deDropsAux", "jsonSloppy", "jsonDiscrete",
               "eqSubset", "eqNotReflexive", "eqPanics", "nondetFit"}
 
-States == [d : 0..1, c : 0..MaxC, h : 0..1]
+States == [d : 0..1, c : 0..MaxC, h : 0..1, a : 0..1]
 
-ObsOf(s) == [status |-> "ok", shape |-> <<1, 1>>, dh |-> <<s.d>>, dl |-> <<0>>,
-             ch |-> <<s.c>>, cl |-> <<0>>, cfx |-> <<s.c \div 2>>, fin |-> TRUE, s |-> 1]
-DigOf(s) == <<s.d, 2 * s.c + s.h>>
+ObsOf(s) == [status |-> "ok", s |-> 1, parts |-> <<
+               [name |-> "predict", status |-> "ok", shape |-> <<1, 1>>, dh |-> <<s.d>>, dl |-> <<0>>,
+                ch |-> <<s.c>>, cl |-> <<0>>, cfx |-> <<s.c \div 2>>, cok |-> <<TRUE>>],
+               IF s.a > 0
+               THEN [name |-> "aux", status |-> "ok", shape |-> <<1, 1>>, dh |-> <<s.a>>, dl |-> <<0>>,
+                     ch |-> <<>>, cl |-> <<>>, cfx |-> <<>>, cok |-> <<>>]
+               ELSE [name |-> "aux", status |-> "err", shape |-> <<0, 0>>, dh |-> <<>>, dl |-> <<>>,
+                     ch |-> <<>>, cl |-> <<>>, cfx |-> <<>>, cok |-> <<>>] >>]
+DigOf(s) == <<s.d + 2 * s.a, 2 * s.c + s.h>>
 
 VARIABLES st,        \* the history state of RoundTrip (spec side)
           s0,        \* the object under test (implementation side)
@@ -88,14 +98,16 @@ Restored(fmt, prec) ==
     LET exact == {s0}
         (* f32 through JSON: the decimal text is parsed as f64 and narrowed;
            allow one last-place unit either way *)
-        rounded == {x \in States : x.d = s0.d /\ x.h = s0.h /\ Abs(x.c - s0.c) <= 1}
+        rounded == {x \in States : x.d = s0.d /\ x.h = s0.h /\ x.a = s0.a /\ Abs(x.c - s0.c) <= 1}
         legit == IF IsJson(fmt) /\ prec = 32 THEN rounded ELSE exact
     IN CASE fault = "deCorrupt" ->      \* a field comes back wrong (swapped dimensions, wrong index ...)
-              {x \in States : x.d # s0.d \/ Abs(x.c - s0.c) >= 4}
+              {x \in States : x.a = s0.a /\ x.h = s0.h /\ (x.d # s0.d \/ Abs(x.c - s0.c) >= 4)}
+         [] fault = "deDropsAux" ->     \* #[serde(skip)] on state that only an auxiliary method reads:
+              {[s0 EXCEPT !.a = 0]}      \* == and predict cannot tell, the auxiliary method can
          [] fault = "deDropsHidden" ->  \* a field is not (de)serialised and the type's == looks at it
               {[s0 EXCEPT !.h = 1 - @]}
          [] fault = "jsonSloppy" /\ IsJson(fmt) ->   \* too few digits written
-              {x \in States : x.d = s0.d /\ x.h = s0.h /\ Abs(x.c - s0.c) >= 4}
+              {x \in States : x.d = s0.d /\ x.h = s0.h /\ x.a = s0.a /\ Abs(x.c - s0.c) >= 4}
          [] fault = "jsonDiscrete" /\ IsJson(fmt) -> \* a label comes back different
               {[s0 EXCEPT !.d = 1 - @]}
          [] OTHER -> legit
@@ -115,6 +127,7 @@ Init == /\ st = Idle
         /\ r = s0 /\ t = s0
         /\ cfgI \in [tol : {0, 1}, cmpH : BOOLEAN]
         /\ fault \in Faults \cup {"none"}
+        /\ (fault = "deDropsAux" => s0.a = 1)    \* premise of that fault class
         /\ viol = {} /\ protoOK = TRUE /\ over = FALSE
 
 Build == /\ st.phase = "idle" /\ ~over
@@ -168,7 +181,7 @@ Alt == /\ Ready(st) /\ {"bincode", "json"} \subseteq st.fmts
        /\ \E how \in Hows, status \in {"ok", "err"} :
             LET role == IF how = "same" THEN "refit" ELSE "other"
                 cands == IF status # "ok" \/ (how = "same" /\ st.det /\ fault # "nondetFit") THEN {s0}
-                         ELSE {x \in States : x.h = s0.h}
+                         ELSE {x \in States : x.h = s0.h /\ x.a = s0.a}
             IN \E x \in cands :
                  /\ t' = (IF status = "ok" /\ st.hasEq THEN x ELSE s0)
                  /\ r' = s0
@@ -199,6 +212,7 @@ Expected == [f \in AllFaults \cup {"none"} |->
       [] f = "deFail" -> {"DeFails"}
       [] f = "deCorrupt" -> {"BincodeBits", "JsonDiscrete", "JsonValues", "EqRestored"}
       [] f = "deDropsHidden" -> {"EqRestored"}
+      [] f = "deDropsAux" -> {"RestoredRefuses"}
       [] f = "jsonSloppy" -> {"JsonValues", "EqRestored"}
       [] f = "jsonDiscrete" -> {"JsonDiscrete", "EqRestored"}
       [] f = "eqSubset" -> {"EqOther"}
@@ -214,6 +228,7 @@ Detect_deFail == fault = "deFail" /\ "DeFails" \in viol /\ UNCHANGED vars
 Detect_deCorruptBits == fault = "deCorrupt" /\ "BincodeBits" \in viol /\ UNCHANGED vars
 Detect_deCorruptJson == fault = "deCorrupt" /\ "JsonValues" \in viol /\ UNCHANGED vars
 Detect_deDropsHidden == fault = "deDropsHidden" /\ "EqRestored" \in viol /\ UNCHANGED vars
+Detect_deDropsAux == fault = "deDropsAux" /\ "RestoredRefuses" \in viol /\ UNCHANGED vars
 Detect_jsonSloppy == fault = "jsonSloppy" /\ "JsonValues" \in viol /\ UNCHANGED vars
 Detect_jsonDiscrete == fault = "jsonDiscrete" /\ "JsonDiscrete" \in viol /\ UNCHANGED vars
 Detect_eqSubset == fault = "eqSubset" /\ "EqOther" \in viol /\ UNCHANGED vars
@@ -223,7 +238,7 @@ Detect_nondetFit == fault = "nondetFit" /\ "EqRefit" \in viol /\ UNCHANGED vars
 
 Next == \/ Build \/ Ser \/ De \/ EqRestored \/ EqSelf \/ Alt \/ EqAlt \/ Finish
         \/ Detect_serFail \/ Detect_deFail \/ Detect_deCorruptBits \/ Detect_deCorruptJson
-        \/ Detect_deDropsHidden \/ Detect_jsonSloppy \/ Detect_jsonDiscrete \/ Detect_eqSubset
+        \/ Detect_deDropsHidden \/ Detect_deDropsAux \/ Detect_jsonSloppy \/ Detect_jsonDiscrete \/ Detect_eqSubset
         \/ Detect_eqNotReflexive \/ Detect_eqPanics \/ Detect_nondetFit
 Spec == Init /\ [][Next]_vars
 
@@ -242,7 +257,7 @@ InvBincodeIdentity ==
     (viol = {} /\ st.phase = "de" /\ st.fmt = "bincode") => ObsOf(r) = ObsOf(s0)
 InvJsonClose ==
     (viol = {} /\ st.phase = "de" /\ IsJson(st.fmt)) =>
-        /\ r.d = s0.d
+        /\ r.d = s0.d /\ (s0.a > 0 => r.a = s0.a)
         /\ Abs((r.c \div 2) - (s0.c \div 2)) <= 1
 (* the statement never forces two observably identical models to be unequal *)
 InvNoForcedInequality ==
